@@ -571,9 +571,7 @@ def x_omp_get_max_threads(m):
 
 
 def x_omp_set_num_threads(m, n):
-    if isinstance(n, Term):
-        raise EngineError('omp_set_num_threads with a symbolic argument')
-    m.nthreads = sg32(n)
+    m.nthreads = n if isinstance(n, Term) else sg32(n)
 
 
 def x_omp_get_thread_num(m):
